@@ -1,4 +1,5 @@
 import Lace.Props.C17
+import Lace.Props.C17Text
 #print axioms Lace.C17.span_starts_at_statement_token
 #print axioms Lace.C17.span_covers_operands_holds
 #print axioms Lace.C17.multiword_share_span_holds
@@ -10,3 +11,18 @@ import Lace.Props.C17
 #print axioms Lace.C17.label_resolves
 #print axioms Lace.C17.label_out_of_range
 #print axioms Lace.C17.unknown_label
+#print axioms Lace.C01.parseHead_te
+#print axioms Lace.C01.parse_items_spans
+#print axioms Lace.C01.parse_tokens_spans
+#print axioms Lace.C01.preprocess_textRel_spans
+#print axioms Lace.C01.textRel_render
+#print axioms Lace.C01.itemsSpansOf_ESpans
+#print axioms Lace.C01.slice_itemsStmtSpans
+#print axioms Lace.C17.spans_render
+#print axioms Lace.C17.span_text_eq_statement_render
+#print axioms Lace.C17.span_text_eq_statement_index
+#print axioms Lace.C17.spans_length_render
+#print axioms Lace.C17.stmtText_render
+#print axioms Lace.C17.assembly_shows_statement_text
+#print axioms Lace.C17.span_text_eq_statement_wf
+#print axioms Lace.C17.span_text_eq_statement_text_holds
